@@ -63,8 +63,11 @@ package backends
 //@   ensures [function_of_prefix_ws_path_key] r == ite(gcs.prefix == "", gcs.workspacePrefix, gcs.prefix + "/" + gcs.workspacePrefix) + "/" + trimChars(path, "/") + "/" + trimChars(key, "/")
 
 // every S3 operation addresses the configured bucket (arg2) and the object name (arg3) computed by buildPath for (path, key)
+// C08: a download that the client reports as failed is a failure of Get, and what Get hands out is the client's body
+// itself (a broken-off download surfaces as a read error to the consumer, never as a complete shorter blob)
 //@ func (*S3Cache).Get(s, ctx, path, key) (r, err)
-//@   pure
+//@   modifies s3Gets, s3LastGetOK, s3LastGetBody
+//@   ensures [one_download_handed_out_as_it_is] s3Gets == old(s3Gets) + 1 && (err == nil <==> s3LastGetOK) && (err == nil ==> ref(r) == s3LastGetBody)
 //@   before_call GetObject#1 [same_namespace] arg2 == s.bucketName && arg3 == ite(s.prefix == "", s.workspacePrefix, s.prefix + "/" + s.workspacePrefix) + "/" + trimChars(path, "/") + "/" + trimChars(key, "/")
 
 // C08: the object that is uploaded is the caller's content itself (handed to the client unread), and Set succeeds only if
